@@ -140,6 +140,10 @@ static size_t bad_BND5_position(parse_buffer * const b) { error e; e.json = b->c
 static size_t bad_BND5_length(parse_buffer * const b) { error e; e.json = b->content; e.position = 0; if (b->offset >= b->length) { e.position = b->length; } return e.position; }
 static size_t good_position(parse_buffer * const b) { error e; e.json = b->content; e.position = 0; if (b->offset < b->length) { e.position = b->offset; } else if (b->length > 0) { e.position = b->length - 1; } return e.position; }
 
+/* the position is stored first and clamped afterwards; published before the clamp in the bad variant */
+static size_t bad_BND5_publish_early(parse_buffer * const b, size_t *end) { error e; e.json = b->content; e.position = b->offset; *end = e.position; if (e.position >= b->length) { e.position = (b->length > 0) ? (b->length - 1) : 0; } return 0; }
+static size_t good_clamp_then_publish(parse_buffer * const b, size_t *end) { error e; e.json = b->content; e.position = b->offset; if (e.position >= b->length) { e.position = (b->length > 0) ? (b->length - 1) : 0; } *end = e.position; return e.position; }
+
 /* EFF7 */
 static void bad_EFF7_write(parse_buffer * const b) { if (can_access_at_index(b, 0)) { ((unsigned char*)b->content)[b->offset] = '\0'; } }
 
